@@ -71,7 +71,8 @@ def run(ctx, report):
                              "no content write other than the public-key entry follows this size guard of %s (a refusal here implies the final one)" % name,
                              "content is modified at %s after a size guard of %s: the guard can refuse a result that would fit" % (later_content, name),
                              fn=f.path, sp=sp, config=cfg)
-    report.check("FLOOR", "core-mutators", ncore >= 5, "at least 5 core mutators analysed (found %d)" % ncore, config=cfg)
+    report.check("FLOOR", "core-mutators", ncore >= 1, "mutators that commit a re-signed copy directly are analysed (found %d)" % ncore, config=cfg)
+    mutators.public_mutator_floor(ctx, report)
 
     # ---- every Err(ExceedsMaxSize) depends on a size guard
     for f in facts.fns:
@@ -189,6 +190,22 @@ def size_fn(ctx, report):
                 ok = True
             elif node.callee.name == "len" and is_encoding_of_self(ctx, f, an, ce.a[1][0]):
                 ok = True
+    if not ok and len(rets) == 1:
+        # idiom 4: Header{list: true, payload_length: L}.length_with_payload() with L the sum of the length()/len() terms of
+        # exactly what encode() emits (length mirror against the record's own emission list)
+        bb, idx, node = rets[0]
+        if hasattr(node, "callee") and node.callee is not None and node.callee.name == "length_with_payload" and "Header" in node.callee.fn and node.args:
+            from rules.c01 import record_emissions
+            from rules.emit import length_mirror
+            hv = strip(an.operand_expr(node.args[0], bb, len(f.blocks[bb].stmts)))
+            rec = record_emissions(ctx)
+            if rec is not None and hv.k == "agg" and hv.a[0].endswith("Header::Header"):
+                lst = strip(hv.a[1].get("list"))
+                probs = length_mirror(ctx, hv.a[1].get("payload_length"), rec[0], rec[1], lambda e: e.k == "param" and e.a[0] == 1)
+                if lst.k == "const" and lst.a[0] == 1 and not probs:
+                    ok = True
+                else:
+                    why = why + " / length mirror: " + "; ".join(probs or ["not a list header"])
     if not ok and len(rets) == 1:
         # idiom 2: Header{list: true, payload_length: len(P)}.length() + len(P), P filled only by append_rlp_content(self, _, true)
         ok2, why2 = size_by_header_arithmetic(ctx, f, an, rets[0])
